@@ -2,6 +2,8 @@ package main
 
 import (
 	"fmt"
+	"sort"
+	"strings"
 	"sync"
 	"go/types"
 
@@ -76,6 +78,10 @@ type QFact struct {
 	Body  *Term
 }
 
+// auxTerms: assertions the engine added on its own (instances of quantified facts, definitional equations of
+// recursive specification functions). Obligations are first tried without them (a sound weakening).
+var auxTerms sync.Map
+
 var (
 	allQFacts  []*QFact
 	qfOfTerm   = map[*Term][]string{} // qf symbols mentioned by a term (cached)
@@ -120,7 +126,9 @@ func (s *State) instantiate(key string, abs *Term) {
 			continue
 		}
 		s.qdone[id] = true
-		s.pc = append(s.pc, Implies(f.QF, subst(f.Body, f.BV.Leaf, k)))
+		inst := Implies(f.QF, subst(f.Body, f.BV.Leaf, k))
+		auxTerms.Store(inst, true)
+		s.pc = append(s.pc, inst)
 	}
 }
 
@@ -463,4 +471,19 @@ func zeroVal(t types.Type) Val {
 		return ChanV{ID: BVu(0, 64), Cap: BVu(0, 64)}
 	}
 	return NilV{T: t}
+}
+
+
+// heapFingerprint identifies the contents of every heap family (terms are immutable: pointer identity is enough).
+func (s *State) heapFingerprint() string {
+	names := make([]string, 0, len(s.heap))
+	for n := range s.heap {
+		names = append(names, n)
+	}
+	sort.Strings(names)
+	var sb strings.Builder
+	for _, n := range names {
+		fmt.Fprintf(&sb, "%s=%p;", n, s.heap[n])
+	}
+	return sb.String()
 }
